@@ -77,6 +77,15 @@ func (s *ConnSniffer) TakeRelayPrefix() []byte {
 	return s.buf.Next(s.buf.Len())
 }
 
+// CloseWrite passes a write shutdown through to the wrapped connection so a
+// relay can forward the peer's end of stream (half-close).
+func (s *ConnSniffer) CloseWrite() error {
+	if wc, ok := s.Conn.(interface{ CloseWrite() error }); ok {
+		return wc.CloseWrite()
+	}
+	return nil
+}
+
 func (s *ConnSniffer) Close() (err error) {
 	var errs []string
 	if err = s.Sniffer.Close(); err != nil {
